@@ -28,7 +28,7 @@ class RunEnd(BaseException):
 
 class Task:
     __slots__ = ("id", "role", "name", "proc", "lock", "done", "pred", "waiting", "ident", "error",
-                 "prio", "started", "on_done", "kind", "deferred", "timed", "killed", "proc_obj")
+                 "prio", "started", "on_done", "kind", "deferred", "timed", "killed", "proc_obj", "slow_pending")
 
     def __init__(self, tid, role, name, proc, kind):
         self.id = tid
@@ -49,6 +49,7 @@ class Task:
         self.deferred = False
         self.timed = False
         self.killed = False
+        self.slow_pending = False    # the operation it is about to perform is a slow spot of this run (see Kernel.switch)
         self.proc_obj = None         # the process object whose run() this task executes (simulated processes)
 
     def __repr__(self):
@@ -74,6 +75,8 @@ class InternalEvent:
 
 class Strategy:
     name = "uniform"
+
+    slow = None
 
     def __init__(self, rng, params=None):
         self.rng = rng
@@ -166,6 +169,21 @@ class RunToBlock(Strategy):
 def make_strategy(choice, est_steps=400):
     """Swarm choice of a strategy; the parameters are plan draws (recorded), the decisions
     come from the sched rng."""
+    st = _make_strategy(choice, est_steps)
+    # fault "slow spot" (a slow or stalled party): a pseudo-random subset of the (task role | task name, operation)
+    # pairs of this run is slow - a task that performs such an operation is from then on (or, mode 'before', right
+    # before it) as slow as it can legally be: it continues only when nobody else can make a step. Unlike a
+    # priority change at a random step this lands at synchronisation points, and on every task of a role at once
+    # (all workers dawdle after they have delivered a result, ...). Off in three fifths of the runs.
+    kind = choice.draw(5, "slow.spots")
+    if kind >= 3:
+        st.slow = {"mod": 8 if kind == 3 else 24, "res": choice.draw(24, "slow.residue"),
+                   "before": choice.draw(3, "slow.before") == 2, "by_name": choice.draw(3, "slow.by_name") == 2}
+        st.params = dict(st.params, slow=st.slow)
+    return st
+
+
+def _make_strategy(choice, est_steps=400):
     rng = choice.sched_rng()
     kind = choice.draw(10, "strategy")
     est = [60, 150, 400, 1000, 3000][choice.draw(5, "strategy.est")]
@@ -397,10 +415,28 @@ class Kernel:
             self._end("capped", {})
         self._record(me, label, sync)
         me.pred = None
+        slow = False
+        sl = self.strategy.slow
+        if sl is not None:
+            if me.slow_pending:
+                # the slow operation has been performed: from here on the task dawdles
+                me.slow_pending = False
+                slow = True
+            if sync and zlib.crc32(f"{me.name if sl['by_name'] else me.role}|{label}".encode()) % sl["mod"] \
+                    == sl["res"] % sl["mod"]:
+                if sl["before"]:
+                    slow = True
+                else:
+                    me.slow_pending = True
+            if slow:
+                me.deferred = True
+                self.fault("slow-spot")
         # for the "pre-empt at anchors" strategy every synchronisation point counts as an anchor, not only the
         # source lines a property module has named
         nxt = self._pick(me, label, anchored or sync)
         self._handoff(me, nxt)
+        if slow:
+            me.deferred = False
 
     def defer(self, label=""):
         """Yield point at which the caller is as slow as it can legally be: it continues only
